@@ -19,10 +19,20 @@ MCKProgs ==
     << << WC(8, 2, "zero"), O("XC", 0, 0, "zero") >>, << >> >>,
     << << >>, << >> >> }
 
+(* larger space for the thorough tier *)
+TWProgs == MCWProgs \cup
+  { << O("NW", 1, 0, "zero"), O("WR", 0, 2, "zero"), O("WR", 0, 1, "zero"), O("CL", 0, 0, "zero") >>,
+    << O("WM", 2, 1, "zero"), O("WM", 1, 2, "zero"), O("WM", 8, 2, "zero"), O("WM", 2, 1, "zero") >>,
+    << O("NW", 9, 0, "zero"), O("WR", 0, 0, "zero"), O("CL", 0, 0, "zero"), O("WM", 1, 1, "zero") >> }
+TKProgs == MCKProgs \cup
+  { << << WC(9, 1, "d1"), WC(8, 2, "zero"), WC(9, 1, "zero") >>, << WC(10, 0, "d1"), WC(8, 0, "d1") >> >>,
+    << << WC(8, 2, "past"), WC(8, 2, "d1") >>, << O("XC", 0, 0, "zero"), WC(9, 1, "zero") >> >> }
+
 (* small space for the liveness check (WCBoundedWait under fairness of the control callers only) *)
 LWProgs == { << O("NW", 1, 0, "zero"), O("WR", 0, 1, "zero"), O("CL", 0, 0, "zero") >>, << O("WM", 8, 2, "zero") >> }
 LKProgs == { << << WC(9, 1, "d1") >>, << WC(8, 2, "zero") >> >>, << << WC(9, 0, "d1"), WC(10, 0, "d1") >>, << WC(9, 1, "d1") >> >> }
 LRProgs == { << >>, << WC(10, 2, "auto") >> }
 
 MCRProgs == { << >>, << WC(10, 2, "auto") >>, << WC(10, 1, "auto"), WC(8, 2, "auto") >> }
+TRProgs == MCRProgs \cup { << WC(8, 2, "auto") >>, << WC(10, 1, "auto"), WC(10, 2, "auto"), WC(8, 2, "auto") >> }
 =============================================================================
